@@ -176,7 +176,7 @@ theorem tryLocation_point (n : Nat) (h0 : 0 < n) (hf : n ≤ 9223372036854775807
   unfold tryLocation
   rw [show (natDigits n).length + 2 = ((natDigits n).length + 1) + 1 from rfl, tryLoc]
   rw [h3] at hr hp ⊢
-  psimp [P.run', ExceptT.run, StateT.run, hc, hr, hp]
+  psimp [ModParse.exact, P.run', ExceptT.run, StateT.run, hc, hr, hp]
 
 /-- `tryLocation` on a printed range `a..b` -/
 theorem tryLocation_range (a b : Nat) (ha : 0 < a) (hfa : a ≤ 9223372036854775807)
@@ -191,5 +191,38 @@ theorem tryLocation_range (a b : Nat) (ha : 0 < a) (hfa : a ≤ 9223372036854775
     ((natDigits a ++ 46 :: 46 :: natDigits b).length + 1) + 1 from rfl, tryLoc]
   rw [h3] at hr ⊢
   simp only [List.cons_append] at hr ⊢
-  psimp [P.run', ExceptT.run, StateT.run, hc, hr]
+  psimp [ModParse.exact, P.run', ExceptT.run, StateT.run, hc, hr]
+/-- `parseRange` on a number followed by a byte that is neither a digit nor `.`: no `..`
+follows, the state is restored -/
+theorem range_natDigits_other (n : Nat) (c : UInt8) (r : Bytes) (stk : List Bytes) (h0 : 0 < n)
+    (hf : n ≤ 9223372036854775807) (hc : isDigit c = false) (hc46 : c ≠ 46) :
+    LocParse.range ⟨natDigits n ++ c :: r, stk⟩ = (.error .fail, ⟨natDigits n ++ c :: r, stk⟩) := by
+  obtain ⟨d, ds, h3, hd⟩ := natDigits_cons n
+  have hi := int_natDigits n (c :: r) ((natDigits n ++ c :: r) :: stk) h0 hf
+    (by simp [hc])
+  rw [h3] at hi
+  simp only [List.cons_append] at hi
+  have h60 : d ≠ 60 := isDigit_ne d 60 hd (by decide)
+  rw [h3]
+  simp only [List.cons_append]
+  cases r with
+  | nil => psimp [LocParse.range, h60, hi]
+  | cons r0 r' =>
+    have hlen : ¬ (r'.length + 1 + 1 < 2) := by omega
+    psimp [LocParse.range, h60, hi, hlen, hc46]
+
+/-- after the repair: a number followed by anything that is not a digit or `.` is *not* a
+location (the point is parsed, but `End` fails on the remaining bytes) -/
+theorem tryLocation_number_prefix (n : Nat) (c : UInt8) (r : Bytes) (h0 : 0 < n)
+    (hf : n ≤ 9223372036854775807) (hc : isDigit c = false) (hc46 : c ≠ 46) :
+    tryLocation (natDigits n ++ c :: r) = .error .fail := by
+  obtain ⟨d, ds, h3, hd⟩ := natDigits_cons n
+  have hcw := fun inner stk => complementWith_other inner d (ds ++ c :: r) stk (isDigit_ne d 99 hd (by decide))
+  have hr := fun stk => range_natDigits_other n c r stk h0 hf hc hc46
+  have hp := fun stk => point_natDigits n (c :: r) stk h0 hf (by simp [hc])
+  unfold tryLocation
+  rw [show (natDigits n ++ c :: r).length + 2 = ((natDigits n ++ c :: r).length + 1) + 1 from rfl, tryLoc]
+  rw [h3] at hr hp ⊢
+  simp only [List.cons_append] at hr hp ⊢
+  psimp [ModParse.exact, P.run', ExceptT.run, StateT.run, hcw, hr, hp]
 end Gts
